@@ -569,9 +569,10 @@ func InotifyAddWatch(fd int, path string, mask uint32) (int, error) {
 //go:norace
 func InotifyRmWatch(fd int, wd uint32) (int, error) {
 	s := sim
-	in := s.instByFD(fd)
 	ssim.Yield("inotify_rm_watch")
 	step := ssim.S().Steps
+	// whoever owns the number now is who the kernel acts on
+	in := s.instByFD(fd)
 	r, err := unix.InotifyRmWatch(fd, wd)
 	c := Call{Step: step, Task: ssim.Cur().ID, Kind: "rm", Wd: int(wd)}
 	if err != nil {
